@@ -484,13 +484,42 @@ func bvResize(a *Expr, w int, signed bool) *Expr {
 	}
 }
 
+// maybeOnes returns a mask of the bits of BV expression e that can be 1
+// (a cheap syntactic over-approximation).
+func maybeOnes(e *Expr, depth int) uint64 {
+	w := e.sort.w
+	all := mask(w)
+	if depth > 40 {
+		return all
+	}
+	switch e.op {
+	case "const":
+		return e.bv
+	case "zero_extend":
+		return maybeOnes(e.args[0], depth+1)
+	case "bvand":
+		return maybeOnes(e.args[0], depth+1) & maybeOnes(e.args[1], depth+1)
+	case "bvor", "bvxor":
+		return maybeOnes(e.args[0], depth+1) | maybeOnes(e.args[1], depth+1)
+	case "ite":
+		return maybeOnes(e.args[1], depth+1) | maybeOnes(e.args[2], depth+1)
+	case "extract":
+		return (maybeOnes(e.args[0], depth+1) >> uint(e.params[1])) & all
+	}
+	return all
+}
+
 // popcount as a sum of bits, result width rw.
 func bvPopcount(a *Expr, rw int) *Expr {
 	if a.isConst() {
 		return bvConst(rw, uint64(bits.OnesCount64(a.bv)))
 	}
+	may := maybeOnes(a, 0)
 	sum := bvConst(rw, 0)
 	for i := 0; i < a.sort.w; i++ {
+		if may&(1<<uint(i)) == 0 {
+			continue
+		}
 		sum = bvBin("bvadd", sum, bvZeroExt(rw-1, bvExtract(i, i, a)))
 	}
 	return sum
